@@ -15,6 +15,9 @@ of the N-th `p[i]`: index widened to 64 bits times sizeof(*p)); constructors are
 `callarg:operator()#k.i` reaches arguments of functor calls; a pointer used as a truth value or compared
 with nullptr becomes a Bool parameter `<name>_nonnull`; `convertor(x)` / `(*convertor)(x)` becomes the
 application of a function parameter `convertor<width>`.
+Added for the accessor tie: `ptroffs:N` (byte offset of the N-th `pointer + integer` on a typed pointer: the integer
+operand widened to 64 bits times sizeof(*pointer); same counting as `ptroff:N`, whose meaning is unchanged); an
+element `p[i]` of a raw array used as a value becomes a parameter `<p>_at_<i>` (the checked read is the model's).
 
 Output files are only rewritten when their content changes (so lake does not rebuild
 for nothing).  Exit status 0 = everything translated; a site that cannot be found or
